@@ -707,8 +707,9 @@ func (t *Table) Update(input *types.UpdateItemInput) (map[string]*types.Item, er
 	}
 
 	if !ok {
-		// types creates a new item when the item does not exists
-		item = copyItem(input.Key)
+		// types creates a new item when the item does not exists: it holds the key attributes,
+		// whatever else the Key of the request carries is not part of it
+		item = t.KeySchema.getKeyItem(input.Key)
 	}
 
 	oldItem := copyItem(item)
